@@ -192,3 +192,77 @@ package chain
 //@   requires m != nil
 //@   ensures [id] result1 ==> result0.ID() == id
 //@   ensures [absent] !result1 ==> forall i int :: { m.txpool.v2txns[i] } 0 <= i && i < len(m.txpool.v2txns) ==> m.txpool.v2txns[i].ID() != id
+//
+// chain.Store: methods that only read (abstract state; writers are specified with the
+// properties that need them).
+//@ iface Store.BestIndex
+//@   assigns nothing
+//@ iface Store.SupplementTipTransaction
+//@   assigns nothing
+//@ iface Store.SupplementTipBlock
+//@   assigns nothing
+//@ iface Store.Block
+//@   assigns nothing
+//@ iface Store.Header
+//@   assigns nothing
+//@ iface Store.State
+//@   assigns nothing
+//@ iface Store.AncestorTimestamp
+//@   assigns nothing
+//@ iface Store.ExpiringFileContractIDs
+//@   assigns nothing
+//
+// Assumed here, proved with C13/C05: these helpers never touch the pool.
+//@ func (*Manager).checkTxnSet
+//@   assigns heap:consensus.MidState
+//@   requires m != nil
+//@ func (*Manager).updateV2TransactionProofs
+//@   assigns elems:types.V2Transaction, elems:types.V2SiacoinInput, elems:types.V2SiafundInput, elems:types.V2FileContractRevision, elems:types.V2FileContractResolution, elems:types.Hash256, heap:types.V2StorageProof
+//@   requires m != nil
+//@   ensures forall i int :: { m.txpool.v2txns[i] } 0 <= i && i < len(m.txpool.v2txns) ==> m.txpool.v2txns[i] == old(m.txpool.v2txns[i])
+//
+// Submission is all-or-nothing: on an error the pool has exactly the transactions it had
+// after the initial revalidation (same lengths, same indexed ids).
+//@ func (*Manager).AddPoolTransactions props C14
+//@   requires m != nil
+//@   ghostvar preLen int
+//@   ghostvar preLen2 int
+//@   ghostvar idxRef ref
+//@   aftercall revalidatePool : preLen = len(m.txpool.txns)
+//@   aftercall revalidatePool : preLen2 = len(m.txpool.v2txns)
+//@   aftercall revalidatePool : idxRef = m.txpool.indices
+//@   loop "range txns"
+//@     invariant m == old(m)
+//@     invariant nOld == preLen
+//@     invariant nOld <= len(m.txpool.txns)
+//@     invariant len(m.txpool.v2txns) == preLen2
+//@     invariant m.txpool.indices == idxRef && idxRef != nil
+//@   loop "range m.txpool.txns[nOld:]"
+//@     invariant m == old(m)
+//@     invariant nOld == preLen
+//@     invariant nOld <= len(m.txpool.txns)
+//@     invariant len(m.txpool.v2txns) == preLen2
+//@     invariant m.txpool.indices == idxRef && idxRef != nil
+//@   ensures [atomic] result1 != nil ==> len(m.txpool.txns) == preLen && len(m.txpool.v2txns) == preLen2
+//
+//@ func (*Manager).AddV2PoolTransactions props C14
+//@   requires m != nil
+//@   ghostvar preLen int
+//@   ghostvar preLen1 int
+//@   ghostvar idxRef ref
+//@   aftercall revalidatePool : preLen = len(m.txpool.v2txns)
+//@   aftercall revalidatePool : preLen1 = len(m.txpool.txns)
+//@   aftercall revalidatePool : idxRef = m.txpool.indices
+//@   loop "range txns" #2
+//@     invariant m == old(m)
+//@     invariant nOld == preLen
+//@     invariant nOld <= len(m.txpool.v2txns)
+//@     invariant len(m.txpool.txns) == preLen1
+//@     invariant m.txpool.indices == idxRef && idxRef != nil
+//@   loop "range m.txpool.v2txns[nOld:]"
+//@     invariant m == old(m)
+//@     invariant nOld == preLen
+//@     invariant nOld <= len(m.txpool.v2txns)
+//@     invariant len(m.txpool.txns) == preLen1
+//@     invariant m.txpool.indices == idxRef && idxRef != nil
+//@   ensures [atomic] result1 != nil ==> len(m.txpool.v2txns) == preLen && len(m.txpool.txns) == preLen1
